@@ -1,15 +1,18 @@
 #!/bin/bash
-# seedrun.sh <seeded-dir-name> <ID> [args...]: apply a seeded change to /repo, run the check, undo.
+# seedrun.sh <seeded-dir-name> <ID> [args...]: run check <ID> (quick) against a seeded change WITHOUT touching /repo:
+# the patch is applied in a scratch worktree of /repo's HEAD and the changed files are overlaid with VERIF_MUTATE.
 set -u
 S=/verif/seeded/$1; shift
 ID=$1; shift
-cd /repo
-if [ -n "$(git status --porcelain --untracked-files=no)" ]; then echo "repo dirty"; exit 2; fi
+W=/tmp/seedwt-$$
+git -C /repo worktree add -q --detach $W HEAD || exit 2
+trap 'git -C /repo worktree remove --force $W >/dev/null 2>&1; rm -rf $W' EXIT
 P=$S/patch.diff; [ -f $S/patch.rebased.diff ] && P=$S/patch.rebased.diff
-git apply $P 2>/dev/null || git apply --3way $P || { echo "PATCH DOES NOT APPLY"; git checkout -- .; exit 3; }
-git reset -q
+(cd $W && (git apply $P 2>/dev/null || git apply --3way $P)) || { echo "PATCH DOES NOT APPLY"; exit 3; }
+M=""
+for f in $(cd $W && git status --porcelain | awk '{print $2}'); do M="$M,$f=$W/$f"; done
+M=${M#,}
 cd /verif
-./run.sh $ID quick "$@" 2>&1 | grep -v "exhaustive=true" | head -12
+VERIF_MUTATE="$M" ./run.sh $ID quick "$@" 2>&1 | grep -v "exhaustive=true" | head -12
 rc=${PIPESTATUS[0]}
-git -C /repo checkout -- .
 echo "exit=$rc"
